@@ -9,7 +9,7 @@ open Conv
 (* default_fixed: false = the function as it is in the tree (crashes when every entry matches),
    true = the repaired function; set it to true once the fix: commit is in /repo.
    The environment variable C20_PROPLIST_FIXED=0/1 overrides it for experiments. *)
-let default_fixed : bool = false
+let default_fixed : bool = true
 let fixed : bool =
   match Sys.getenv_opt "C20_PROPLIST_FIXED" with
   | Some "1" -> true
